@@ -1,6 +1,7 @@
 (* C14 — Remote failure detection: node down, remote termination, incarnations.
    Property theorems only; proofs live in NetFail/ (and Rel/ for the target manager). *)
 From Ergo Require Import Common.Base Rel.Amap Rel.Model Rel.TMProofs Rel.RegProofs NetFail.Model NetFail.Proofs.
+From Ergo Require Import NetFail.Guard NetFail.GuardCases NetFail.GuardProofs NetFail.Accept.
 Local Open Scope N_scope.
 
 (* CleanupNode n as set comprehension (proved in the Rel engine): reported are exactly the relations
@@ -131,6 +132,99 @@ Theorem C14_incarnation_partial : forall b t1 t2 c t ref,
   last rs NOk = NErr e_incarnation /\ n_out s = [] /\ n_pending s = [].
 Proof. exact incarnation_partial. Qed.
 Print Assumptions C14_incarnation_partial.
+
+(* (4') The guard table of net/proto/connection.go, one row per outgoing method of gen.Connection that is
+   handed an identifier (NetFail/Guard.v quotes the Go line of each).  The methods that take a stamped
+   identifier of the peer are exactly these fifteen ... *)
+Theorem C14_guard_table_ops : stamped_ops =
+  [CSendPID; CSendAlias; CSendExit; CSendResponse; CSendResponseError; CCallPID; CCallAlias;
+   CLinkPID; CUnlinkPID; CLinkAlias; CUnlinkAlias; CMonitorPID; CDemonitorPID; CMonitorAlias; CDemonitorAlias].
+Proof. exact stamped_ops_list. Qed.
+Print Assumptions C14_guard_table_ops.
+
+(* ... and for EVERY one of them and EVERY identifier whose creation differs from the peer creation of the
+   connection the operation returns the incarnation error and writes no frame ... *)
+Theorem C14_guard_refuses_stale : forall op i cr pc from fcr mcr,
+  takes_stamped op = true -> accepts op i = true ->
+  ident_creation i = Some cr -> cr <> pc ->
+  conn_op conn_table op from fcr mcr i pc = (NErr e_incarnation, []).
+Proof. exact guard_refuses_stale. Qed.
+Print Assumptions C14_guard_refuses_stale.
+
+(* ... so nothing reaches any process or alias of the new incarnation, whatever lives there *)
+Theorem C14_stale_reaches_nobody : forall op i cr pc from fcr mcr live rnode rcr,
+  takes_stamped op = true -> accepts op i = true ->
+  ident_creation i = Some cr -> cr <> pc ->
+  delivered live rnode rcr (snd (conn_op conn_table op from fcr mcr i pc)) = [].
+Proof. exact stale_reaches_nobody. Qed.
+Print Assumptions C14_stale_reaches_nobody.
+
+(* the same through the process API (Link / Monitor / Unlink / Demonitor check the local relation first) *)
+Theorem C14_proc_refuses_stale : forall held op i cr pc from mcr,
+  takes_stamped op = true -> accepts op i = true ->
+  ident_creation i = Some cr -> cr <> pc ->
+  let '(r, fs) := proc_op conn_table held op from mcr i pc in
+  fs = [] /\ (r = NErr e_incarnation \/ r = NErr e_exist \/ r = NErr e_norel).
+Proof. exact proc_refuses_stale. Qed.
+Print Assumptions C14_proc_refuses_stale.
+
+(* the table does not refuse everything: an identifier of the connected incarnation passes, one frame is
+   written and the receiver resolves it to exactly the identifier that was addressed *)
+Theorem C14_guard_passes_current : forall op i pc from fcr mcr rnode,
+  takes_stamped op = true -> accepts op i = true ->
+  ident_creation i = Some pc ->
+  (match i with IPid n _ _ | IAlias n _ _ => n | IName _ n | IEvent _ n => n end) = rnode ->
+  exists w, conn_op conn_table op from fcr mcr i pc = (NOk, [w]) /\ resolve rnode pc (w_to w) = i.
+Proof. exact guard_passes_current. Qed.
+Print Assumptions C14_guard_passes_current.
+
+(* a table is sound (refuses every stale identifier of a local sender without a frame) IFF every one of the
+   fifteen operations has the line `if to.Creation != c.peer_creation` *)
+Theorem C14_guard_sound_iff : forall t,
+  sound t <-> (forall op, takes_stamped op = true -> t op = GPeer).
+Proof. exact sound_iff_guarded. Qed.
+Print Assumptions C14_guard_sound_iff.
+
+(* refuted for a table with a missing line: for every binary-frame operation the stale identifier is written
+   with its numeric id only and the receiver resolves it to the twin of the new incarnation *)
+Theorem C14_guard_missing_refuted : forall op,
+  takes_stamped op = true -> binary_frame op = true ->
+  exists i cr pc w,
+    ident_creation i = Some cr /\ cr <> pc /\ accepts op i = true /\
+    conn_op (set_line conn_table op GNone) op 1001 5 5 i pc = (NOk, [w]) /\
+    reaches twin_live 2 pc w = true /\ resolve 2 pc (w_to w) <> i.
+Proof. exact guard_missing_refuted. Qed.
+Print Assumptions C14_guard_missing_refuted.
+
+(* refuted for a WRONG line (SendExit comparing from.Creation with the own node's creation: always equal):
+   the exit signal for <2.1004> of creation 1000 is written and reaches <2.1004> of creation 1001 *)
+Theorem C14_guard_sendexit_from_refuted :
+  exists i cr pc from mcr w,
+    ident_creation i = Some cr /\ cr <> pc /\
+    conn_op seeded_table CSendExit from mcr mcr i pc = (NOk, [w]) /\
+    delivered twin_live 2 pc [w] = [w] /\ resolve 2 pc (w_to w) = IPid 2 1004 pc /\ resolve 2 pc (w_to w) <> i.
+Proof. exact guard_sendexit_from_refuted. Qed.
+Print Assumptions C14_guard_sendexit_from_refuted.
+
+(* an attempt on which the implementation agrees with the model table satisfies the property monitor *)
+Theorem C14_guard_corr_implies_spec : forall o,
+  takes_stamped (go_op o) = true -> accepts (go_op o) (go_ident o) = true ->
+  corr_one o = true -> spec_one o = true.
+Proof. exact corr_implies_spec. Qed.
+Print Assumptions C14_guard_corr_implies_spec.
+
+(* "when that node stops": a connection being accepted while network.stop runs.  With the re-check of the
+   running flag after the registration (fix e1f48c0) every interleaving of the acceptor with stop() ends with the
+   link closed, so the dialing node sees its peer go down; without it the interleaving flag, walk, register
+   leaves the link open on a stopped node (reproduced on two real nodes: 14 of 40 attempts) *)
+Theorem C14_accept_stop_closed : forall l, In l (interleave 10 stop_thread accept_fixed) -> a_open (arun l) = false.
+Proof. exact accept_stop_closed. Qed.
+Print Assumptions C14_accept_stop_closed.
+
+Theorem C14_accept_stop_before_refuted :
+  exists l, In l (interleave 10 stop_thread accept_before) /\ a_open (arun l) = true /\ a_running (arun l) = false.
+Proof. exact accept_stop_before_refuted. Qed.
+Print Assumptions C14_accept_stop_before_refuted.
 
 (* non-vacuity: observers 1001 (links) and 1002 (monitors) on a pid, a name and the node 2 itself;
    the pid terminates remotely with reason 13, then the node is lost *)
